@@ -384,7 +384,16 @@ class ExprMixin:
             return r if isinstance(op, ast.In) else z3.Not(r)
         raise Unsupported("compare op")
 
+    def _unwrap_container(self, c: Sym, st) -> Sym:
+        """a val whose declared spec is (optionally) a dict/set/seq is read through that spec"""
+        if c.kind == "val" and c.spec is not None:
+            sp = c.spec.arg if c.spec.kind == "opt" else c.spec
+            if isinstance(sp, Spec) and sp.kind in ("dict", "set", "seq"):
+                return unbox(sp, c.t, st, facts=False)
+        return c
+
     def contains(self, container: Sym, x: Sym, st):
+        container = self._unwrap_container(container, st)
         if container.kind in ("seq", "set"):
             if is_prim(x) or elem_spec(container).kind in ("str", "int", "prim") or container.kind == "set":
                 return seq_contains(container.t, box(x, st), st)
@@ -408,8 +417,15 @@ class ExprMixin:
         return self.display(node.elts, st, False)
 
     def display(self, elts, st, tup):
-        t = Q.Empty()
         especs = set()
+        if not any(isinstance(e, ast.Starred) for e in elts):
+            boxed = []
+            for e in elts:
+                s = self.eval(e, st)
+                boxed.append(box(s, st))
+                especs.add(self.static_spec(s))
+            es = especs.pop() if len(especs) == 1 else VAL
+            return Sym("seq", Q.Literal(st, boxed), Spec("seq", es, tup))
         parts = []
         for e in elts:
             if isinstance(e, ast.Starred):
@@ -418,16 +434,13 @@ class ExprMixin:
                     parts.append(s.py.keys)
                     especs.add(s.py.kspec)
                 else:
-                    parts.append(as_seq(s, st))
+                    parts.append(as_seq(self.materialise(s, st), st))
                     especs.add(elem_spec(s))
             else:
                 s = self.eval(e, st)
                 parts.append(Q.Unit(st, box(s, st)))
                 especs.add(self.static_spec(s))
-        if len(parts) == 1:
-            t = parts[0]
-        elif parts:
-            t = Q.Concat(st, *parts)
+        t = Q.Concat(st, *parts)
         es = especs.pop() if len(especs) == 1 else VAL
         return Sym("seq", t, Spec("seq", es, tup))
 
@@ -523,6 +536,7 @@ class ExprMixin:
         return self.getitem(base, idx, st, node)
 
     def getitem(self, base: Sym, idx: Sym, st, node=None) -> Sym:
+        base = self._unwrap_container(base, st)
         where = f"line {getattr(node, 'lineno', '?')}"
         if base.kind == "seq" or (base.kind == "val" and base.spec is not None and base.spec.kind == "seq"):
             s = as_seq(base, st)
